@@ -26,6 +26,17 @@ type ctx struct {
 	shared  map[string]bool   // variables shared between goroutines
 	kind    map[string]string // chan | mutex | wg | atomic | func | plain
 	inlines map[string]*ast.FuncLit
+	goIDs   map[*ast.GoStmt]int
+	local   map[int]map[string]bool // names defined inside goroutine body g (shadow outer ones)
+	cur     []int                   // stack of goroutine ids during emission
+}
+
+func (c *ctx) isSharedPlain(name string) bool {
+	if !c.shared[name] || c.kind[name] != "plain" {
+		return false
+	}
+	g := c.cur[len(c.cur)-1]
+	return !c.local[g][name]
 }
 
 func q(s string) string { return "\"" + s + "\"" }
@@ -70,7 +81,7 @@ func (c *ctx) reads(e ast.Node, skip map[*ast.Ident]bool) []string {
 			if skip[t] {
 				return true
 			}
-			if c.shared[t.Name] && c.kind[t.Name] == "plain" {
+			if c.isSharedPlain(t.Name) {
 				out = append(out, "SRead "+q(t.Name))
 			}
 		}
@@ -165,7 +176,7 @@ func (c *ctx) expr(e ast.Expr) []string {
 	case *ast.SelectorExpr:
 		return c.expr(t.X)
 	case *ast.Ident:
-		if c.shared[t.Name] && c.kind[t.Name] == "plain" {
+		if c.isSharedPlain(t.Name) {
 			return []string{"SRead " + q(t.Name)}
 		}
 	}
@@ -190,7 +201,10 @@ func (c *ctx) stmt(s ast.Stmt) []string {
 	switch t := s.(type) {
 	case *ast.GoStmt:
 		if lit, ok := t.Call.Fun.(*ast.FuncLit); ok {
-			return []string{"SGo " + list(c.block(lit.Body.List))}
+			c.cur = append(c.cur, c.goIDs[t])
+			body := c.block(lit.Body.List)
+			c.cur = c.cur[:len(c.cur)-1]
+			return []string{"SGo " + list(body)}
 		}
 		return []string{"SGo " + list(c.callStmt(t.Call))}
 	case *ast.DeferStmt:
@@ -215,20 +229,25 @@ func (c *ctx) stmt(s ast.Stmt) []string {
 		for _, l := range t.Lhs {
 			switch lt := l.(type) {
 			case *ast.Ident:
-				if c.shared[lt.Name] && c.kind[lt.Name] == "plain" && t.Tok != token.DEFINE {
+				if c.isSharedPlain(lt.Name) && t.Tok != token.DEFINE {
 					out = append(out, "SWrite "+q(lt.Name))
 				}
 			case *ast.SelectorExpr:
 				out = append(out, c.expr(lt.X)...)
 			case *ast.IndexExpr:
-				if id, ok := lt.X.(*ast.Ident); ok && c.shared[id.Name] && c.kind[id.Name] == "plain" {
+				// x[i] = ... where i is local to this goroutine (a parameter or local): every
+				// instance owns its own element; not a write to the shared variable as a whole
+				if ix, ok := lt.Index.(*ast.Ident); ok && len(c.cur) > 1 && c.local[c.cur[len(c.cur)-1]][ix.Name] {
+					break
+				}
+				if id, ok := lt.X.(*ast.Ident); ok && c.isSharedPlain(id.Name) {
 					out = append(out, "SWrite "+q(id.Name))
 				}
 			}
 		}
 		return out
 	case *ast.IncDecStmt:
-		if id, ok := t.X.(*ast.Ident); ok && c.shared[id.Name] && c.kind[id.Name] == "plain" {
+		if id, ok := t.X.(*ast.Ident); ok && c.isSharedPlain(id.Name) {
 			return []string{"SRead " + q(id.Name), "SWrite " + q(id.Name)}
 		}
 	case *ast.DeclStmt:
@@ -337,7 +356,8 @@ func (c *ctx) block(stmts []ast.Stmt) []string {
 
 // classify local variables of fn and find those shared between goroutines
 func analyse(fn *ast.FuncDecl) *ctx {
-	c := &ctx{shared: map[string]bool{}, kind: map[string]string{}, inlines: map[string]*ast.FuncLit{}}
+	c := &ctx{shared: map[string]bool{}, kind: map[string]string{}, inlines: map[string]*ast.FuncLit{},
+		goIDs: map[*ast.GoStmt]int{}, local: map[int]map[string]bool{0: {}}, cur: []int{0}}
 	declared := map[string]bool{}
 	classify := func(name string, rhs ast.Expr, typ ast.Expr) {
 		declared[name] = true
@@ -412,9 +432,49 @@ func analyse(fn *ast.FuncDecl) *ctx {
 		}
 		return true
 	})
-	// usage per goroutine: 0 = function body itself, k>0 = k-th go statement (nested ones get their own)
+	// usage per goroutine: 0 = function body itself, k>0 = k-th go statement (nested ones get their own);
+	// names defined (:=, var, range) inside a goroutine body are local to it and shadow outer names
 	usedIn := map[string]map[int]bool{}
 	goID := 0
+	defsIn := func(body ast.Node) map[string]bool {
+		defs := map[string]bool{}
+		ast.Inspect(body, func(m ast.Node) bool {
+			switch t := m.(type) {
+			case *ast.GoStmt:
+				if _, ok := t.Call.Fun.(*ast.FuncLit); ok {
+					return false
+				}
+			case *ast.AssignStmt:
+				if t.Tok == token.DEFINE {
+					for _, l := range t.Lhs {
+						if id, ok := l.(*ast.Ident); ok {
+							defs[id.Name] = true
+						}
+					}
+				}
+			case *ast.RangeStmt:
+				if t.Tok == token.DEFINE {
+					for _, e := range []ast.Expr{t.Key, t.Value} {
+						if id, ok := e.(*ast.Ident); ok {
+							defs[id.Name] = true
+						}
+					}
+				}
+			case *ast.ValueSpec:
+				for _, id := range t.Names {
+					defs[id.Name] = true
+				}
+			case *ast.FuncLit:
+				for _, f := range t.Type.Params.List {
+					for _, id := range f.Names {
+						defs[id.Name] = true
+					}
+				}
+			}
+			return true
+		})
+		return defs
+	}
 	var walk func(n ast.Node, g int)
 	walk = func(n ast.Node, g int) {
 		ast.Inspect(n, func(m ast.Node) bool {
@@ -422,7 +482,14 @@ func analyse(fn *ast.FuncDecl) *ctx {
 			case *ast.GoStmt:
 				goID++
 				id := goID
+				c.goIDs[t] = id
 				if lit, ok := t.Call.Fun.(*ast.FuncLit); ok {
+					c.local[id] = defsIn(lit.Body)
+					for _, f := range lit.Type.Params.List {
+						for _, pn := range f.Names {
+							c.local[id][pn.Name] = true
+						}
+					}
 					walk(lit.Body, id)
 					for _, a := range t.Call.Args {
 						walk(a, g)
@@ -430,7 +497,7 @@ func analyse(fn *ast.FuncDecl) *ctx {
 					return false
 				}
 			case *ast.Ident:
-				if declared[t.Name] {
+				if declared[t.Name] && !(g > 0 && c.local[g][t.Name]) {
 					if usedIn[t.Name] == nil {
 						usedIn[t.Name] = map[int]bool{}
 					}
